@@ -2,7 +2,7 @@
 import framework as fw, vm
 
 def run(prop, tier, seed, wd, t0):
-    jobs = [vm.step_safe(tier, [prop], None)]
+    jobs = [vm.step_safe(tier, [prop], None), vm.reset(tier, [prop])]
     return fw.run_e1(prop, tier, seed, wd, t0, jobs, fw.COMMON_ASSUMPTIONS + [
         'the program satisfies the static well-formedness WF of C03 (established for compiler output by the C03 checks)',
         'inductive step; base case: the constructed machine has no data and no activations (asserted under C17, h_fresh)'],
